@@ -110,7 +110,7 @@ type getterCall struct {
 
 // world is the application behind the four connection fields. Its state is set per case.
 type world struct {
-	api *apifu.API
+	apis []*apifu.API
 	// per case
 	E          []int // application order
 	policy     int
@@ -215,14 +215,61 @@ func toIntPtr(v any) *int {
 
 func intLess(a, b any) bool { return a.(cur).K < b.(cur).K }
 
-func newWorld() *world {
-	w := &world{}
-	cfg := &apifu.Config{}
-	edgeFields := map[string]*graphql.FieldDefinition{
+// Edge fields beyond `node`: their resolvers are not interchangeable (different values, different
+// types), so an edge that is resolved by another field's resolver is seen.
+func labelOf(c int) string { return "L" + strconv.Itoa(c) }
+func weightOf(c int) int   { return ((c % 1000) + 1000) % 1000 }
+func evenOf(c int) bool    { return c%2 == 0 }
+
+func edgeFieldDefs() map[string]*graphql.FieldDefinition {
+	return map[string]*graphql.FieldDefinition{
 		"node": {Type: graphql.StringType, Resolve: func(ctx graphql.FieldContext) (any, error) {
 			return nodeOf(ctx.Object.(item).C), nil
 		}},
+		"label": {Type: graphql.NewNonNullType(graphql.StringType), Resolve: func(ctx graphql.FieldContext) (any, error) {
+			return labelOf(ctx.Object.(item).C), nil
+		}},
+		"weight": {Type: graphql.IntType, Resolve: func(ctx graphql.FieldContext) (any, error) {
+			return weightOf(ctx.Object.(item).C), nil
+		}},
+		"even": {Type: graphql.BooleanType, Resolve: func(ctx graphql.FieldContext) (any, error) {
+			return evenOf(ctx.Object.(item).C), nil
+		}},
 	}
+}
+
+// The APIs of one process, built in this order (the order is part of the history: definitions of
+// one connection must not change how another one — defined before or after, in the same or in
+// another schema — answers):
+//
+//	0 "plain, built first"   the plain connections only, before any customised connection exists
+//	1 "plain then custom"    the plain connections, then connections with custom Arguments
+//	2 "custom then plain"    the customised connections defined first
+//	3 "plain, built last"    plain only again, after all customisations happened
+//
+// Plain connections: all/window × sync/promise (bidirectional), fwdOnly, bwdOnly. Customised ones:
+// customAll (bidirectional; `first` overridden with a default page size, a required `ownerId`),
+// customFwd (forward only; a required `tenant`), customBwd (backward only; `last` overridden with a
+// default).
+const numWorlds = 4
+
+var worldNames = []string{"plain-built-first", "plain-then-custom", "custom-then-plain", "plain-built-last"}
+
+const customAllDefaultFirst = 2
+const customBwdDefaultLast = 1
+
+func (w *world) allEdgesResolver(promise bool) func(ctx graphql.FieldContext) (any, func(a, b any) bool, error) {
+	return func(ctx graphql.FieldContext) (any, func(a, b any) bool, error) {
+		w.allCalls++
+		slice := w.items(w.E)
+		if promise {
+			return apifu.Go(ctx.Context, func() (any, error) { return slice, nil }), intLess, nil
+		}
+		return slice, intLess, nil
+	}
+}
+
+func (w *world) addPlain(cfg *apifu.Config) {
 	for _, promise := range []bool{false, true} {
 		promise := promise
 		suffix := "Sync"
@@ -230,18 +277,11 @@ func newWorld() *world {
 			suffix = "Promise"
 		}
 		cfg.AddQueryField("all"+suffix, apifu.Connection(&apifu.ConnectionConfig{
-			NamePrefix: "All" + suffix,
-			ResolveAllEdges: func(ctx graphql.FieldContext) (any, func(a, b any) bool, error) {
-				w.allCalls++
-				slice := w.items(w.E)
-				if promise {
-					return apifu.Go(ctx.Context, func() (any, error) { return slice, nil }), intLess, nil
-				}
-				return slice, intLess, nil
-			},
-			CursorType: cursorType,
-			EdgeCursor: func(edge any) any { return curOf(edge.(item).C) },
-			EdgeFields: edgeFields,
+			NamePrefix:      "All" + suffix,
+			ResolveAllEdges: w.allEdgesResolver(promise),
+			CursorType:      cursorType,
+			EdgeCursor:      func(edge any) any { return curOf(edge.(item).C) },
+			EdgeFields:      edgeFieldDefs(),
 		}))
 		cfg.AddQueryField("window"+suffix, apifu.Connection(&apifu.ConnectionConfig{
 			NamePrefix: "Window" + suffix,
@@ -261,14 +301,83 @@ func newWorld() *world {
 			},
 			CursorType: cursorType,
 			EdgeCursor: func(edge any) any { return curOf(edge.(item).C) },
-			EdgeFields: edgeFields,
+			EdgeFields: edgeFieldDefs(),
 		}))
 	}
-	api, err := apifu.NewAPI(cfg)
-	if err != nil {
-		panic(err)
+	cfg.AddQueryField("fwdOnly", apifu.Connection(&apifu.ConnectionConfig{
+		NamePrefix:      "FwdOnly",
+		Direction:       apifu.ConnectionDirectionForwardOnly,
+		ResolveAllEdges: w.allEdgesResolver(false),
+		CursorType:      cursorType,
+		EdgeCursor:      func(edge any) any { return curOf(edge.(item).C) },
+		EdgeFields:      edgeFieldDefs(),
+	}))
+	cfg.AddQueryField("bwdOnly", apifu.Connection(&apifu.ConnectionConfig{
+		NamePrefix:      "BwdOnly",
+		Direction:       apifu.ConnectionDirectionBackwardOnly,
+		ResolveAllEdges: w.allEdgesResolver(true),
+		CursorType:      cursorType,
+		EdgeCursor:      func(edge any) any { return curOf(edge.(item).C) },
+		EdgeFields:      edgeFieldDefs(),
+	}))
+}
+
+func (w *world) addCustom(cfg *apifu.Config) {
+	cfg.AddQueryField("customAll", apifu.Connection(&apifu.ConnectionConfig{
+		NamePrefix: "CustomAll",
+		Arguments: map[string]*graphql.InputValueDefinition{
+			"first":   {Type: graphql.IntType, DefaultValue: customAllDefaultFirst},
+			"ownerId": {Type: graphql.NewNonNullType(graphql.IDType)},
+		},
+		ResolveAllEdges: w.allEdgesResolver(false),
+		CursorType:      cursorType,
+		EdgeCursor:      func(edge any) any { return curOf(edge.(item).C) },
+		EdgeFields:      edgeFieldDefs(),
+	}))
+	cfg.AddQueryField("customFwd", apifu.Connection(&apifu.ConnectionConfig{
+		NamePrefix: "CustomFwd",
+		Direction:  apifu.ConnectionDirectionForwardOnly,
+		Arguments: map[string]*graphql.InputValueDefinition{
+			"tenant": {Type: graphql.NewNonNullType(graphql.StringType)},
+		},
+		ResolveAllEdges: w.allEdgesResolver(true),
+		CursorType:      cursorType,
+		EdgeCursor:      func(edge any) any { return curOf(edge.(item).C) },
+		EdgeFields:      edgeFieldDefs(),
+	}))
+	cfg.AddQueryField("customBwd", apifu.Connection(&apifu.ConnectionConfig{
+		NamePrefix: "CustomBwd",
+		Direction:  apifu.ConnectionDirectionBackwardOnly,
+		Arguments: map[string]*graphql.InputValueDefinition{
+			"last": {Type: graphql.IntType, DefaultValue: customBwdDefaultLast},
+		},
+		ResolveAllEdges: w.allEdgesResolver(false),
+		CursorType:      cursorType,
+		EdgeCursor:      func(edge any) any { return curOf(edge.(item).C) },
+		EdgeFields:      edgeFieldDefs(),
+	}))
+}
+
+func newWorld() *world {
+	w := &world{}
+	for i := 0; i < numWorlds; i++ {
+		cfg := &apifu.Config{}
+		switch i {
+		case 0, 3:
+			w.addPlain(cfg)
+		case 1:
+			w.addPlain(cfg)
+			w.addCustom(cfg)
+		case 2:
+			w.addCustom(cfg)
+			w.addPlain(cfg)
+		}
+		api, err := apifu.NewAPI(cfg)
+		if err != nil {
+			panic(err)
+		}
+		w.apis = append(w.apis, api)
 	}
-	w.api = api
 	return w
 }
 
@@ -299,18 +408,52 @@ type Req struct {
 	// slice (`var ret []T` with no appends) instead of a non-nil empty slice — directly and through
 	// a promise. (An untyped nil is not a slice: completeConnection answers it with an error.)
 	NilEmpty bool `json:"nil_empty"`
+	// which of the process's APIs serves the request (see newWorld), and — when not "" — which
+	// connection field instead of the plain <mode><Sync|Promise> one: fwdOnly | bwdOnly | customAll |
+	// customFwd | customBwd (all of them ResolveAllEdges connections)
+	World int    `json:"world"`
+	Field string `json:"field,omitempty"`
+	// select only `cursor node` on the edges (otherwise also label, weight, even)
+	NodeOnly bool `json:"node_only,omitempty"`
 }
 
 func (r Req) field() string {
+	if r.Field != "" {
+		return r.Field
+	}
 	if r.Promise {
 		return r.Mode + "Promise"
 	}
 	return r.Mode + "Sync"
 }
 
+// effective: the counts the resolver sees — a customised connection may give `first` / `last` a
+// default value.
+func (r Req) effective() (first, last *int) {
+	first, last = r.First, r.Last
+	if r.Field == "customAll" && first == nil {
+		v := customAllDefaultFirst
+		first = &v
+	}
+	if r.Field == "customBwd" && last == nil {
+		v := customBwdDefaultLast
+		last = &v
+	}
+	return first, last
+}
+
+// validationRejects: the schema (not the resolver) rejects the request — a direction-only
+// connection declares its count as a required argument.
+func (r Req) validationRejects() bool {
+	return (r.Field == "fwdOnly" || r.Field == "customFwd") && r.First == nil || r.Field == "bwdOnly" && r.Last == nil
+}
+
 type servedEdge struct {
-	Cursor string `json:"cursor"`
-	Node   string `json:"node"`
+	Cursor string  `json:"cursor"`
+	Node   string  `json:"node"`
+	Label  *string `json:"label,omitempty"`
+	Weight *int    `json:"weight,omitempty"`
+	Even   *bool   `json:"even,omitempty"`
 }
 
 type servedObs struct {
@@ -338,7 +481,10 @@ func gqlString(s string) string {
 }
 
 func (r Req) build() (query string, vars map[string]any) {
-	sel := "edges { cursor node }"
+	sel := "edges { cursor node label weight even }"
+	if r.NodeOnly {
+		sel = "edges { cursor node }"
+	}
 	if r.SelPI {
 		sel += " pageInfo { hasPreviousPage hasNextPage startCursor endCursor }"
 	}
@@ -386,6 +532,12 @@ func (r Req) build() (query string, vars map[string]any) {
 	} else {
 		add("before", "String", false, "", nil)
 	}
+	switch r.Field {
+	case "customAll":
+		args = append(args, `ownerId: "o1"`)
+	case "customFwd":
+		args = append(args, `tenant: "t1"`)
+	}
 	q := "query"
 	if len(decls) > 0 {
 		q += "(" + strings.Join(decls, ", ") + ")"
@@ -412,7 +564,7 @@ func (w *world) serve(E []int, policy int, policySeed uint64, r Req) (o servedOb
 				o.Panic = fmt.Sprint(p)
 			}
 		}()
-		w.api.ServeGraphQL(rec, req)
+		w.apis[r.World%len(w.apis)].ServeGraphQL(rec, req)
 	}()
 	o.AllCalls, o.TCCalls, o.WinCalls = w.allCalls, w.tcCalls, w.winCalls
 	if o.WinCalls == nil {
